@@ -229,6 +229,9 @@ func readIndex(s *sx) *sx {
 		return nil
 	}
 	if s.head() == "sat" && len(s.list) == 3 {
+		if s.list[1].isAtom() && strings.HasPrefix(s.list[1].atom, "strlit$") {
+			return nil // bytes of string literals are never relevant index terms
+		}
 		return s.list[2]
 	}
 	if s.head() == "select" && len(s.list) == 3 {
